@@ -119,6 +119,36 @@ def run(chk):
             chk.violation('impl-vs-spec', desc, {'defined_on_impl': observable_defined, 'defined_by_XPath': bool(spec)})
         chk.nontrivial.add(repr(('gc', v, o, a, b)))
 
+    # ---- 1b'. the same table with the XPath 1.0 compatibility mode switched on (XPath2Parser / XPath31Parser)
+    cmodel = core.run_coq_cases('C07', IMPORTS, [f'run_gcc {v} {o} {a} {b}' for v, o, a, b in gcells], chunk=700, tag='gcc') if model_ok else [None] * len(gcells)
+    for (v, o, a, b), mo in zip(gcells, cmodel):
+        P = XPath31Parser if v else XPath2Parser
+        outcomes = set()
+        ra = [f"xs:untypedAtomic('{UNTYPED_FOR[TY[b]]}')"] if TY[a] == 'untyped' and TY[b] != 'untyped' else REP[TY[a]][:2]
+        rb = [f"xs:untypedAtomic('{UNTYPED_FOR[TY[a]]}')"] if TY[b] == 'untyped' and TY[a] != 'untyped' else REP[TY[b]][:2]
+        for va in ra:
+            for vb in rb:
+                chk.evaluations += 1
+                expr = f'{va} {GOPS[o]} {vb}'
+                try:
+                    P(compatibility_mode=True).parse(expr).evaluate()
+                    outcomes.add('value')
+                except ElementPathError as e:
+                    outcomes.add((e.code or '').split(':')[-1])
+                except Exception as e:
+                    chk.violation('foreign-exception', {'expr': expr, 'compatibility_mode': True}, repr(e)[:200])
+        chk.count('gc-compat:' + GOPS[o])
+        if mo is None:
+            continue
+        defined, spec = mo
+        observable_defined = outcomes != {'XPTY0004'}
+        desc = {'parser': P.__name__, 'compatibility_mode': True, 'op': GOPS[o], 'types': [TY[a], TY[b]], 'outcomes': sorted(map(str, outcomes))}
+        if observable_defined != bool(defined):
+            chk.corr_fail.append((desc, 'value' if observable_defined else 'XPTY0004', 'value' if defined else 'XPTY0004'))
+        if observable_defined != bool(spec):
+            chk.violation('impl-vs-spec', desc, {'defined_on_impl': observable_defined, 'defined_by_XPath': bool(spec)})
+        chk.nontrivial.add(repr(('gcc', v, o, a, b)))
+
     # ---- 1c. XPath 1.0 comparisons (section 3.4) over booleans, numbers, strings and node-sets: C07/XPath1.v compare1
     import re as _re
     import lxml.etree as _LE
